@@ -3,10 +3,10 @@
 (* Exhaustive scopes for KeyOrder.tla and export of verdict tables.        *)
 (*                                                                         *)
 (* Universe = every key of the scope.  The relations are tabulated once    *)
-(* (constant definitions), the state is a pair (a, b) of key indices -     *)
+(* (constant definitions), the state is a pair (ia, ib) of key indices -     *)
 (* one state per key and per ordered pair - and every invariant is a       *)
 (* sentence of the property about that pair and, for the triple laws,      *)
-(* about (a, b, c) for EVERY c of the universe.                            *)
+(* about (ia, ib, c) for EVERY c of the universe.                            *)
 (*                                                                         *)
 (*   Mode = "scope" : NN names x all label lists of length <= MaxLen over  *)
 (*                    NK label names x NV values                           *)
@@ -60,30 +60,32 @@ PermOf(i, j) == i \in Distinct /\ IsPerm(P[i], P[j])
 Rep == TLCEval([i \in Idx |-> SetMin({j \in Idx : EqT[i][j]} \cup {i})])
 Rank == TLCEval([i \in Idx |-> Cardinality({j \in Idx : CmpT[j][i] = LT})])
 
-VARIABLES a, b
-vars == <<a, b>>
-Init == a \in Idx /\ b = 0
-PickB == b = 0 /\ b' \in Idx /\ a' = a
+VARIABLES ia, ib
+vars == <<ia, ib>>
+Init == ia \in Idx /\ ib = 0
+PickB == ib = 0 /\ ib' \in Idx /\ ia' = ia
 Next == PickB
 Spec == Init /\ [][Next]_vars
 
-TypeOK == a \in Idx /\ b \in 0..N
-InvEqRefl == LawEqRefl(E, a)
-InvEqSym == b # 0 => LawEqSym(E, a, b)
-InvEqTrans == b # 0 => \A c \in Idx : LawEqTrans(E, a, b, c)
-InvEqClasses == b # 0 => (E(a, b) <=> Rep[a] = Rep[b])
-InvCmpRefl == LawCmpRefl(C, a)
-InvCmpAntisym == b # 0 => LawCmpAntisym(C, a, b)
-InvCmpTrans == b # 0 => \A c \in Idx : LawCmpTrans(C, a, b, c)
-InvCmpRank == b # 0 => C(a, b) = IntCmp(Rank[a], Rank[b])
-InvEqHash == b # 0 => LawEqHash(E, H, a, b)
-InvPerm == b # 0 => LawPerm(E, C, H, PermOf, a, b)
+TypeOK == ia \in Idx /\ ib \in 0..N
+InvEqRefl == LawEqRefl(E, ia)
+InvEqSym == ib # 0 => LawEqSym(E, ia, ib)
+InvEqTrans == ib # 0 => \A c \in Idx : LawEqTrans(E, ia, ib, c)
+InvEqClasses == ib # 0 => (E(ia, ib) <=> Rep[ia] = Rep[ib])
+InvCmpRefl == LawCmpRefl(C, ia)
+InvCmpAntisym == ib # 0 => LawCmpAntisym(C, ia, ib)
+InvCmpTrans == ib # 0 => \A c \in Idx : LawCmpTrans(C, ia, ib, c)
+InvCmpRank == ib # 0 => C(ia, ib) = IntCmp(Rank[ia], Rank[ib])
+InvEqHash == ib # 0 => LawEqHash(E, H, ia, ib)
+InvPerm == ib # 0 => LawPerm(E, C, H, PermOf, ia, ib)
 (* the law, or the named deviation *)
-InvEqCmp == b # 0 => (LawEqCmp(E, C, a, b) \/ b \in DevT[a])
+InvEqCmp == ib # 0 => (LawEqCmp(E, C, ia, ib) \/ ib \in DevT[ia])
 (* the law alone: violated today (CF03); the counterexample must be an instance of the deviation *)
-InvEqCmpStrict == b # 0 => LawEqCmp(E, C, a, b)
+InvEqCmpStrict ==
+  ib # 0 => (LawEqCmp(E, C, ia, ib)
+             \/ ~PrintT(<<"CF03-WITNESS", KeySeq[ia], KeySeq[ib], "eq", EqT[ia][ib], "cmp", CmpT[ia][ib]>>))
 (* and the deviation is not vacuous while it is listed: every instance really violates the law *)
-InvDevIsViolation == (b # 0 /\ b \in DevT[a]) => ~LawEqCmp(E, C, a, b)
+InvDevIsViolation == (ib # 0 /\ ib \in DevT[ia]) => ~LawEqCmp(E, C, ia, ib)
 
 (* ---- export: the universe with the verdict tables, for execution on the real code ---- *)
 B2I(x) == IF x THEN 1 ELSE 0
@@ -94,7 +96,7 @@ Exported ==
    heq  |-> [i \in Idx |-> [j \in Idx |-> B2I(HeqT[i][j])]],
    dev  |-> [i \in Idx |-> [j \in Idx |-> B2I(j \in DevT[i])]],
    t8   |-> T8]
-ExportInit == a = 1 /\ b = 0
+ExportInit == ia = 1 /\ ib = 0
 ExportSpec == ExportInit /\ [][FALSE]_vars
 Emit == JsonSerialize(IOEnv.EXPORT, Exported)
 =============================================================================
